@@ -45,7 +45,7 @@ func c12Scenarios(tier string) []Scenario {
 		for _, T := range Ts {
 			for n := -1; n <= maxN; n++ {
 				for pkt := 0; pkt < 3; pkt++ {
-					for dest := 0; dest < 2; dest++ {
+					for dest := 0; dest < 3; dest++ {
 						if tier == "quick" && (pkt+dest)%2 == 1 && n > 3 {
 							continue
 						}
